@@ -15,6 +15,7 @@ import (
 	"fmt"
 	"math/rand"
 	"sort"
+	"strings"
 )
 
 type randSrc struct{ *rand.Rand }
@@ -24,7 +25,11 @@ func newRand(seed int64) *randSrc { return &randSrc{rand.New(rand.NewSource(seed
 func (r *randSrc) pick(ss ...string) string { return ss[r.Intn(len(ss))] }
 func (r *randSrc) chance(p float64) bool    { return r.Float64() < p }
 
-var plainNames = []string{"aa", "bb", "cc", "dd", "ee", "ff", "gg", "hh"}
+// property names: identifier-like ones and one token of every other class of the partition that
+// spec/Meta.tla (PropNameClass) defines - with a space, with dots and a slash, with a dash, non-ASCII,
+// longer than an identifier may be.  (The empty name is left out: the meta-schema demands one byte.)
+var plainNames = []string{"aa", "bb", "cc", "dd", "ee", "ff", "gg", "hh",
+	"max retries", "a.b", "app.kubernetes.io/name", "x-y", "é", strings.Repeat("n", 300)}
 var plainTexts = []string{"Nm", "Ds", "Ic", "why", "Lorem", "ipsum"}
 
 type gen struct {
